@@ -1,0 +1,43 @@
+//go:build verif
+
+package dual
+
+// Contracts for the dual sweeping provider's shutdown (property C14). Comment-only.
+
+/*@
+import provider "github.com/libp2p/go-libp2p-kad-dht/provider"
+
+role f(p *provider.SweepingProvider) error in (s *SweepingProvider) runOnBoth(f func(*provider.SweepingProvider) error) error
+  modifies *
+
+# runOnBoth returns only after BOTH calls have finished: the WAN call it makes
+# itself and the LAN call whose single report it receives - on every path,
+# whatever the WAN call returned.
+func (s *SweepingProvider) runOnBoth(f func(*provider.SweepingProvider) error) error
+  props C14
+  ghostvar $recv int = 0
+  ghostvar $wan bool = false
+  ghostvar $spawned int = 0
+  modifies *
+  ensures [internal-waits-for-both] $recv == 1 && $wan && $spawned == 1
+  ghost at go(func): $spawned = $spawned + 1
+  ghost at before call(f): assert($arg0 == s.WAN); $wan = true
+  ghost at recv(errCh): $recv = $recv + 1
+
+funclit 0 in (s *SweepingProvider) runOnBoth(f func(*provider.SweepingProvider) error) error
+  props C14
+  ghostvar $sent int = 0
+  ghostvar $lan bool = false
+  ensures [internal-one-report-after-the-lan-call] $sent == 1 && $lan
+  ghost at before call(f): assert($arg0 == s.LAN); $lan = true
+  ghost at send(errCh): assert($lan); $sent = $sent + 1
+
+# Close cleans the owned keystore/datastore up only after both providers closed.
+func (s *SweepingProvider) Close() error
+  props C14
+  ghostvar $both bool = false
+  modifies *
+  ensures [internal-closes-both-first] $both
+  ghost at call(runOnBoth): $both = true
+  ghost at before call(f): assert($both)
+@*/
